@@ -23,15 +23,16 @@ type Obligation struct {
 	NLines int
 	Props  []string
 	// results
-	Verdict string
-	Solver  string
-	Secs    float64
-	Raw     string
-	All     map[string]string
-	Model   map[string]string
-	Values  []string // terms to get-value on failure
+	Verdict    string
+	Solver     string
+	Secs       float64
+	Raw        string
+	All        map[string]string
+	Model      map[string]string
+	Values     []string          // terms to get-value on failure
 	ValueNames map[string]string // term -> human name
-	Cover  bool // a cover query: expected SAT (reachability); unsat == vacuity
+	Cover      bool              // a cover query: expected SAT (reachability); unsat == vacuity
+	Static     bool              // decided by a built-in procedure (regincl / valueflow), no SMT query
 }
 
 type State struct {
@@ -48,47 +49,53 @@ func (s *State) clone() *State {
 }
 
 type VC struct {
-	eng    *Engine
-	root   *ssa.Function
-	fc     *FuncContract
-	lines  []string
-	n      int
-	obls   []*Obligation
-	svSort map[string]string
-	svInit map[string]string
-	strlit map[string]string
-	assum  map[string]bool
-	entry  *State
-	ordinals map[string]int
-	props  []string
-	unsupported []string
-	frames int
-	modCache map[*ssa.Function]map[string]bool
-	inlineStack []*ssa.Function
-	witness map[string]string // human name -> term (entry-state values to report in models)
-	declared map[string]bool
-	lockTerms []string
-	strlitLine map[string]int
-	witnessSort map[string]string
-	iters map[ssa.Value]*mapIter
-	lastIter *mapIter
-	refAxDone map[string]bool
-	frameHidePkg string
-	svContent map[string]svInfo
-	autoLoops map[loopKey]*LoopContract
-	frameFr *Frame
-	framePos token.Pos
-	frameWhole map[string]bool
-	frameObjs map[string][]string
-	primaryClass string
-	defCache map[string]string
-	factCache map[string]bool
-	eventNames map[string]bool
+	callArgVals   []ssa.Value // SSA arguments of the contracted call being applied (for provenance)
+	eng           *Engine
+	root          *ssa.Function
+	fc            *FuncContract
+	lines         []string
+	n             int
+	obls          []*Obligation
+	svSort        map[string]string
+	svInit        map[string]string
+	strlit        map[string]string
+	assum         map[string]bool
+	entry         *State
+	ordinals      map[string]int
+	props         []string
+	unsupported   []string
+	frames        int
+	modCache      map[*ssa.Function]map[string]bool
+	inlineStack   []*ssa.Function
+	witness       map[string]string // human name -> term (entry-state values to report in models)
+	declared      map[string]bool
+	lockTerms     []string
+	shapes        map[string]*Shape
+	loopShapes    map[int]*Shape
+	loopEntry     map[int]*Shape
+	loopBacks     map[int][]*Shape
+	loopRefOf     map[string]int
+	strlitLine    map[string]int
+	witnessSort   map[string]string
+	iters         map[ssa.Value]*mapIter
+	lastIter      *mapIter
+	refAxDone     map[string]bool
+	frameHidePkg  string
+	svContent     map[string]svInfo
+	autoLoops     map[loopKey]*LoopContract
+	frameFr       *Frame
+	framePos      token.Pos
+	frameWhole    map[string]bool
+	frameObjs     map[string][]string
+	primaryClass  string
+	defCache      map[string]string
+	factCache     map[string]bool
+	eventNames    map[string]bool
 	eventArgTypes map[string]types.Type
-	inSpec int
-	inQuant int
-	topFrame *Frame
-	decls []string
+	inSpec        int
+	inQuant       int
+	topFrame      *Frame
+	decls         []string
 }
 
 func newVC(eng *Engine, fn *ssa.Function, fc *FuncContract) *VC {
@@ -213,8 +220,8 @@ func (vc *VC) svDeclareT(name, sortName string, t types.Type, levels int, keySor
 }
 
 type svInfo struct {
-	typ    types.Type
-	levels int
+	typ     types.Type
+	levels  int
 	keySort string
 }
 
@@ -615,6 +622,7 @@ func (vc *VC) strLit(s string) string {
 	// and distinct from every symbolic string that is constrained to be a literal.
 	vc.emit(fmt.Sprintf("(define-fun %s () Int (- %d)) ; %q", name, id, s))
 	vc.emit(fmt.Sprintf("(assert (= (slen %s) %d))", name, len(s)))
+	vc.setShape(name, shLit(s))
 	return name
 }
 
